@@ -89,26 +89,32 @@ def gen_scenarios(chk, ids):
 
 def name_tok(n):
     if isinstance(n, dict):
-        if n["n"] > 0:
-            return "*%dx%d" % (n["rep"], n["n"])
-        n = n["b"]
+        return "*%dx%d" % (n["rep"], n["n"])
     return hexs(n)
 
 
+NO_NAME = [255, 253]                   # the library returned NULL where a name is owed
+
+
+def long_name(b, n):
+    """A name of n copies of byte b travels through the trace as a short escape sequence (injective on the
+    names the scenarios use), so that 40 KB names do not have to be spelled out in every event."""
+    return [255, 254, b] + list(n.to_bytes(4, "big"))
+
+
 def norm_name(n):
-    """names are uniform records in the trace: short names as bytes, long ones as (byte, count)"""
     if isinstance(n, dict):
-        return {"b": list(n.get("b", [])), "rep": n["rep"], "n": n["n"]}
-    return {"b": list(n), "rep": 0, "n": 0}
+        return long_name(n["rep"], n["n"])
+    return list(n)
 
 
 def name_of_tok(t):
     if t in ("?",):
-        return {"b": [], "rep": -1, "n": -1}            # the library returned no name (NULL)
+        return list(NO_NAME)
     if t.startswith("*"):
         b, n = t[1:].split("x")
-        return {"b": [], "rep": int(b), "n": int(n)}
-    return norm_name([] if t == "-" else list(bytes.fromhex(t)))
+        return long_name(int(b), int(n))
+    return [] if t == "-" else list(bytes.fromhex(t))
 
 
 def norm_cols(cols):
